@@ -1,0 +1,5 @@
+//go:build !verif
+
+package composite
+
+func verifYield(string) {}
